@@ -65,8 +65,9 @@ def _treat_failed_block(block: ParsingFailedBlock, bibtex_format: "BibtexFormat"
     lines = len(block.raw.splitlines())
     try:
         parsing_failed_comment = bibtex_format.parsing_failed_comment.format(n=lines)
-    except (KeyError, IndexError, ValueError):
-        # Not a template with (only) the `{n}` placeholder, e.g. a text with other braces: use it as it is.
+    except (KeyError, IndexError, ValueError, AttributeError, TypeError):
+        # Not a template with (only) the `{n}` placeholder, e.g. a text with other braces
+        # (or with `{n.x}` / `{n[0]}`, which an int cannot serve): use it as it is.
         parsing_failed_comment = bibtex_format.parsing_failed_comment
     return [parsing_failed_comment, "\n", block.raw, "\n"]
 
